@@ -33,6 +33,8 @@ def native_check(text):
     try:
         lib = Splitter(text).split()
     except Exception as e:  # noqa
+        from pysym.harness import guard_repo_exception
+        guard_repo_exception(e)
         return f"raised {type(e).__name__}: {e}"
     cur = 0
     for i, b in enumerate(lib.blocks):
@@ -169,6 +171,12 @@ INSIDE = {
     "braced": ("@a{k, t = {", "},\n u = 1}"),
     "quoted": ("@a{k, t = \"", "\", u = 1}"),
     "key": ("@a{", ",\n t = 1}"),
+    # between the tokens of a block head / a field (a line break there must not move the block's or the field's line)
+    "string-key": ("@string{", "s = {v}}\n@a{k}"),
+    "string-eq": ("@string{s", "= {v}}\n"),
+    "after-key": ("@a{k", ", t = 1}\n"),
+    "field-key": ("@a{k,", "t = 1,\n u = 2}"),
+    "field-eq": ("@a{k, t", "= 1}\n@b{j}"),
 }
 
 
